@@ -5,6 +5,7 @@ package c11
 import (
 	"cmp"
 	"fmt"
+	"math"
 	"slices"
 	"testing"
 
@@ -304,8 +305,36 @@ func sortedImpl[T cmp.Ordered](name string, conv func(int) T) impl[T, *container
 func convInt(i int) int       { return i*7 - 20 }
 func convString(i int) string { return fmt.Sprintf("k%03d", i+1) }
 
+// floatTable: finite and infinite corner values of float64 without NaN and
+// without the negative zero (the zeros have their own kind, c11.set-float; NaN is outside the domain).
+var floatTable = []float64{math.Inf(-1), -math.MaxFloat64, -2.5, -math.SmallestNonzeroFloat64, 0, math.SmallestNonzeroFloat64, 0.1, 1, 1 << 53, 1<<53 + 2, math.MaxFloat64, math.Inf(1)}
+
+func convFloat(i int) float64 {
+	if i >= 0 && i < len(floatTable) {
+		return floatTable[i]
+	}
+	return float64(i)*1e6 + 0.5
+}
+
+// label is a named string type, tiny a narrow unsigned type.
+type label string
+type tiny uint8
+
+func convLabel(i int) label { return label(convString(i)) }
+func convTiny(i int) tiny   { return tiny(i*37 + 250) }
+
 func checkSet(c SetCase) error {
 	switch c.Impl {
+	case "mapset-float":
+		return runSet(mapImpl("mapset-float", convFloat), c)
+	case "sorted-float":
+		return runSet(sortedImpl("sorted-float", convFloat), c)
+	case "mapset-label":
+		return runSet(mapImpl("mapset-label", convLabel), c)
+	case "sorted-label":
+		return runSet(sortedImpl("sorted-label", convLabel), c)
+	case "sorted-tiny":
+		return runSet(sortedImpl("sorted-tiny", convTiny), c)
 	case "mapset-int":
 		return runSet(mapImpl("mapset-int", convInt), c)
 	case "mapset-string":
@@ -321,7 +350,8 @@ var setProp = vp.Register(vp.Prop[SetCase]{
 	Kind: "c11.set", Base: 20000,
 	Gen: func(t *rapid.T) SetCase {
 		c := SetCase{
-			Impl:    rapid.SampledFrom([]string{"mapset-int", "mapset-string", "sorted-int", "sorted-string", "sorted-int"}).Draw(t, "impl"),
+			Impl: rapid.SampledFrom([]string{"mapset-int", "mapset-string", "sorted-int", "sorted-string", "sorted-int",
+				"mapset-float", "sorted-float", "mapset-label", "sorted-label", "sorted-tiny"}).Draw(t, "impl"),
 			Initial: rapid.SliceOfN(rapid.IntRange(0, universe-1), 0, 8).Draw(t, "initial"),
 		}
 		n := rapid.IntRange(1, 30).Draw(t, "n")
@@ -337,6 +367,156 @@ var setProp = vp.Register(vp.Prop[SetCase]{
 	},
 	Check: checkSet,
 })
+
+// ---------------------------------------------------------------------------
+// SortedSliceSet over floats with both zeros and both infinities.  -0 and +0
+// are one element (equal under == and under cmp.Compare).  NaN is outside the
+// domain: no implementation over Go maps or == can treat it as a value, and
+// the tree under test does not either (NewSortedSliceSet(NaN, NaN).Len() is 2,
+// MapSet.Has(NaN) is always false), so nothing is asserted about it.
+
+// NaNCase (the name is historical) is a history over SortedSliceSet[float64] and [float32].
+type NaNCase struct {
+	F32     bool    `json:"f32,omitempty"`
+	Initial []int   `json:"initial"`
+	Ops     []SetOp `json:"ops"`
+}
+
+var nanTable = []float64{math.Inf(-1), -math.MaxFloat32, math.Copysign(0, -1), 0, math.SmallestNonzeroFloat32, 1, 2.5, math.Inf(1)}
+
+type floatModel[F float32 | float64] struct{ vals []F }
+
+func (m *floatModel[F]) idx(v F) int {
+	for i, x := range m.vals {
+		if cmp.Compare(x, v) == 0 {
+			return i
+		}
+	}
+	return -1
+}
+
+func runNaN[F float32 | float64](c NaNCase) error {
+	conv := func(i int) F { return F(nanTable[((i%len(nanTable))+len(nanTable))%len(nanTable)]) }
+	type pr struct {
+		set *container.SortedSliceSet[F]
+		m   *floatModel[F]
+	}
+	same := func(a, b []F) bool {
+		return slices.EqualFunc(a, b, func(x, y F) bool { return cmp.Compare(x, y) == 0 })
+	}
+	init := make([]F, len(c.Initial))
+	m0 := &floatModel[F]{}
+	for i, v := range c.Initial {
+		init[i] = conv(v)
+		if m0.idx(init[i]) < 0 {
+			m0.vals = append(m0.vals, init[i])
+		}
+	}
+	pairs := []pr{{container.NewSortedSliceSet(slices.Clone(init)...), m0}}
+	nanMember := false
+	check := func(step string) error {
+		for i, p := range pairs {
+			want := slices.Clone(p.m.vals)
+			slices.SortFunc(want, func(a, b F) int { return cmp.Compare(a, b) })
+			if p.set.Len() != len(want) {
+				return fmt.Errorf("%s: set #%d Len() = %d, model has %v", step, i, p.set.Len(), want)
+			}
+			got := p.set.Values()
+			for j := 1; j < len(got); j++ {
+				if cmp.Compare(got[j-1], got[j]) >= 0 {
+					return fmt.Errorf("%s: set #%d Values() = %v is not strictly ascending in cmp.Compare order", step, i, got)
+				}
+			}
+			if !same(got, want) {
+				return fmt.Errorf("%s: set #%d Values() = %v, want %v", step, i, got, want)
+			}
+			var ranged []F
+			p.set.Range(func(v F) bool { ranged = append(ranged, v); return true })
+			if !same(ranged, want) {
+				return fmt.Errorf("%s: set #%d Range yielded %v, want %v", step, i, ranged, want)
+			}
+			for k := range nanTable {
+				v := conv(k)
+				if has := p.set.Has(v); has != (p.m.idx(v) >= 0) {
+					return fmt.Errorf("%s: set #%d (%v) Has(%v) = %v", step, i, got, v, has)
+				}
+			}
+			for j, q := range pairs {
+				a, b := slices.Clone(p.m.vals), slices.Clone(q.m.vals)
+				slices.SortFunc(a, func(x, y F) int { return cmp.Compare(x, y) })
+				slices.SortFunc(b, func(x, y F) int { return cmp.Compare(x, y) })
+				if eq := p.set.Equal(q.set); eq != same(a, b) {
+					return fmt.Errorf("%s: set #%d %v Equal(set #%d %v) = %v", step, i, a, j, b, eq)
+				}
+			}
+		}
+		return nil
+	}
+	if err := check("construction"); err != nil {
+		return err
+	}
+	for i, op := range c.Ops {
+		t := ((op.Target % len(pairs)) + len(pairs)) % len(pairs)
+		p := pairs[t]
+		v := conv(op.Val)
+		switch op.Kind {
+		case "add":
+			p.set.Add(v)
+			if p.m.idx(v) < 0 {
+				p.m.vals = append(p.m.vals, v)
+			}
+		case "delete":
+			p.set.Delete(v)
+			if j := p.m.idx(v); j >= 0 {
+				p.m.vals = slices.Delete(p.m.vals, j, j+1)
+			}
+		case "clear":
+			p.set.Clear()
+			p.m.vals = nil
+		case "clone":
+			if len(pairs) < 3 {
+				pairs = append(pairs, pr{p.set.Clone(), &floatModel[F]{vals: slices.Clone(p.m.vals)}})
+			}
+		}
+		if p.m.idx(0) >= 0 && len(p.m.vals) >= 2 && (op.Kind == "add" || op.Kind == "delete") && v == 0 {
+			nanMember = true
+		}
+		if err := check(fmt.Sprintf("after op %d (%s %v on #%d)", i, op.Kind, v, t)); err != nil {
+			return err
+		}
+	}
+	vp.Class("set-float")
+	if nanMember {
+		vp.Class("set-float:zero-of-either-sign-next-to-others")
+		vp.NonTrivialStr("c11.set-float", fmt.Sprintf("%+v", c))
+		vp.Sample("set-float", c)
+	}
+	return nil
+}
+
+var nanProp = vp.Register(vp.Prop[NaNCase]{
+	Kind: "c11.set-float", Base: 5000,
+	Gen: func(t *rapid.T) NaNCase {
+		c := NaNCase{F32: rapid.Bool().Draw(t, "f32"), Initial: rapid.SliceOfN(rapid.IntRange(0, len(nanTable)-1), 0, 5).Draw(t, "initial")}
+		n := rapid.IntRange(1, 20).Draw(t, "n")
+		for i := 0; i < n; i++ {
+			c.Ops = append(c.Ops, SetOp{
+				Kind:   rapid.SampledFrom([]string{"add", "add", "add", "delete", "delete", "clear", "clone"}).Draw(t, "kind"),
+				Target: rapid.IntRange(0, 2).Draw(t, "target"),
+				Val:    rapid.IntRange(0, len(nanTable)-1).Draw(t, "val"),
+			})
+		}
+		return c
+	},
+	Check: func(c NaNCase) error {
+		if c.F32 {
+			return runNaN[float32](c)
+		}
+		return runNaN[float64](c)
+	},
+})
+
+func TestSetNaN(t *testing.T) { vp.Run(t, nanProp) }
 
 // ---------------------------------------------------------------------------
 // RingBuffer
@@ -512,6 +692,17 @@ var longSetProp = vp.Register(vp.Prop[SetCase]{
 	},
 	Check: checkSet,
 })
+
+// TestConcurrent (variant "conc", -race): the sequential oracle from 8
+// goroutines at once, each on its own objects; objects of one type must not
+// share mutable state.
+func TestConcurrent(t *testing.T) {
+	if vp.Variant() != "conc" {
+		t.Skip("runs in the conc variant (-race)")
+	}
+	vp.RunConcurrent(t, setProp, 200, 32, 8)
+	vp.RunConcurrent(t, ringProp, 200, 32, 8)
+}
 
 func TestSetLong(t *testing.T)  { vp.Run(t, longSetProp) }
 func TestRingLong(t *testing.T) { vp.Run(t, longRingProp) }
